@@ -62,6 +62,13 @@ pub fn drive(args: &HashMap<String, String>) {
     for (p, _) in crate::p_compile::use_ladder(true) {
         progs.push(p);
     }
+    // DepthLadder: the parameter is used at the bottom of expressions nested up to the evaluator's depth limit and beyond
+    // (TLC's JSON reader stops at 255 levels of nesting: two per addition)
+    for (p, _) in crate::p_compile::depth_ladder(true) {
+        if crate::util::json_depth(&p.to_json()) < 240 {
+            progs.push(p.rename_vars(&lower));
+        }
+    }
     // 1. ask the checker
     let jobs: Vec<Value> = progs.iter().map(|p| json!({"op": "usecheck", "text": p.render("*standard-cl-21*"), "events": true})).collect();
     let cfg = PoolCfg { batch: 1, timeout: Duration::from_secs(20), ..PoolCfg::default() };
